@@ -35,11 +35,12 @@ type vxSnap struct {
 	tid    [TransactionIDSize]byte
 	attrs  Attributes
 	nattr  int
+	spare  int // cap(Raw) - len(Raw)
 	first  RawAttribute
 }
 
 func vxSnapshot(m *Message) vxSnap {
-	s := vxSnap{rawObj: m.Raw, length: m.Length, typ: m.Type, tid: m.TransactionID, attrs: m.Attributes, nattr: len(m.Attributes)}
+	s := vxSnap{rawObj: m.Raw, spare: cap(m.Raw) - len(m.Raw), length: m.Length, typ: m.Type, tid: m.TransactionID, attrs: m.Attributes, nattr: len(m.Attributes)}
 	s.raw = make([]byte, len(m.Raw))
 	copy(s.raw, m.Raw)
 	if len(m.Attributes) > 0 {
@@ -49,9 +50,18 @@ func vxSnapshot(m *Message) vxSnap {
 }
 
 // vxUnchanged: raw bytes, length, header fields and attribute list exactly as in the snapshot.
-func vxUnchanged(m *Message, s vxSnap, what string) {
+func vxUnchanged(m *Message, s vxSnap, what string) { vxUnchangedOrMoved(m, s, what, 0) }
+
+// vxUnchangedOrMoved: as vxUnchanged, except that an operation that needs `room` scratch bytes behind
+// Raw (MessageIntegrity.Check: 20) may move Raw to a larger buffer of equal content when the spare
+// capacity was smaller than that; with enough room the buffer must stay where it is.
+func vxUnchangedOrMoved(m *Message, s vxSnap, what string, room int) {
 	vxAssert(len(m.Raw) == len(s.raw), what+": len(Raw) unchanged")
-	vxAssert(vxSameObject(m.Raw, s.rawObj) || len(s.raw) == 0, what+": Raw is still the same buffer")
+	if s.spare >= room {
+		vxAssert(vxSameObject(m.Raw, s.rawObj) || len(s.raw) == 0, what+": Raw is still the same buffer")
+	} else {
+		vxAssert(vxSameObject(m.Raw, s.rawObj) || cap(m.Raw)-len(m.Raw) >= room, what+": Raw is the same buffer or was moved to one with the room the operation needs")
+	}
 	w := vxWitness(len(s.raw)) // w == len is harmless: vxAt yields 0 on both sides
 	vxAssert(vxAt(m.Raw, w) == vxAt(s.raw, w), what+": raw bytes unchanged")
 	vxAssert(m.Length == s.length, what+": Length unchanged")
